@@ -263,7 +263,17 @@ pub fn check_cov(c: &CovCase) -> CheckResult {
 }
 
 fn cov_strategy() -> impl Strategy<Value = CovCase> {
-    (any::<bool>(), 1usize..=8, 2usize..=64, layout_strategy(2))
+    cov_strategy_with(8, (2usize..=64).boxed())
+}
+
+/// Thousands of observations of a few variables (f64; lengths around powers of two and block sizes).
+fn cov_long_strategy(max_obs: usize) -> impl Strategy<Value = CovCase> {
+    // (the f32 cases of this stream keep the short length: their budgets stop resolving beyond it)
+    cov_strategy_with(4, crate::gen::long_len(300, max_obs))
+}
+
+fn cov_strategy_with(max_vars: usize, obs: BoxedStrategy<usize>) -> impl Strategy<Value = CovCase> {
+    (prop_oneof![Just(false), any::<bool>()], 1usize..=max_vars, obs, layout_strategy(2))
         .prop_flat_map(|(f32_, vars, obs, layout)| {
             let obs = if f32_ { obs.min(32) } else { obs };
             // incl. fractional values between n-1 and n (still < n, so documented to work)
@@ -307,6 +317,7 @@ fn cov_strategy() -> impl Strategy<Value = CovCase> {
 pub fn run_c08(ctx: &Ctx) {
     let t = ctx.tier();
     ctx.run_proptest("cov", t.pick(16_000, 400_000), cov_strategy(), &check_cov);
+    ctx.run_proptest("cov-long", t.pick(400, 12_000), cov_long_strategy(t.pick(6_000, 12_000)), &check_cov);
 }
 
 // ---------------------------------------------------------------------------------------
@@ -434,7 +445,9 @@ fn relation_checks(n: usize, sq_own: f64, l1_own: f64, maxv: f64, d: (f64, f64, 
         let ratio = maxv * maxv / mse;
         let want = 10.0 * ratio.log10();
         // one rounding of the ratio moves log10 by ~u/ln(10); log10 itself and the product err by a few ulp
-        let tol = 10.0 * 4.0 * u / std::f64::consts::LN_10 + 8.0 * u * want.abs();
+        // (the property names a function, not an evaluation order: 20 log10|maxv| - 10 log10(mse) is the same
+        // function and rounds each logarithm at its own magnitude, which the last term allows for)
+        let tol = 10.0 * 4.0 * u / std::f64::consts::LN_10 + 8.0 * u * want.abs() + 4.0 * u * (20.0 * maxv.abs().log10().abs() + 10.0 * mse.log10().abs());
         ensure!((psnr - want).abs() <= tol, "tolerance", "{}: peak_signal_to_noise_ratio = {:e} is not 10 log10(maxv^2 / mean_sq_err) = {:e} (difference {:e}, allowed {:e}; maxv {:e}, mse {:e})", what, psnr, want, (psnr - want).abs(), tol, maxv, mse);
     }
     Ok(())
@@ -450,7 +463,7 @@ fn derived_checks(n: usize, sq: f64, l1: f64, rel_sq: f64, rel_l1: f64, maxv: f6
     ensure!(rel_close(rmse, (sq / nn).sqrt(), rel_sq / 2.0 + 4.0 * u), "tolerance", "{}: root_mean_sq_err = {:e}, exact sqrt(sq_l2/n) = {:e}", what, rmse, (sq / nn).sqrt());
     if sq > 0.0 && maxv != 0.0 && (maxv * maxv).is_finite() && maxv * maxv > f64::MIN_POSITIVE {
         let want = 10.0 * (maxv * maxv / (sq / nn)).log10();
-        let tol = (10.0 / std::f64::consts::LN_10) * (rel_sq + 8.0 * u) + 8.0 * u * want.abs();
+        let tol = (10.0 / std::f64::consts::LN_10) * (rel_sq + 8.0 * u) + 8.0 * u * want.abs() + 4.0 * u * (20.0 * maxv.abs().log10().abs() + 10.0 * (sq / nn).log10().abs());
         ensure!((psnr - want).abs() <= tol, "tolerance", "{}: peak_signal_to_noise_ratio = {:e}, exact 10 log10(maxv^2/mse) = {:e} (allowed {:e})", what, psnr, want, tol);
     } else if sq == 0.0 && maxv != 0.0 {
         ensure!(psnr == f64::INFINITY, "wrong-value", "{}: identical arrays must give an infinite PSNR, got {:e}", what, psnr);
@@ -572,25 +585,59 @@ pub fn check_dev(c: &DevCase) -> CheckResult {
         .class(c.layout_a.class())
         .class_if(c.layout_a != c.layout_b, "operands:different-layouts")
         .class_if(c.own_a != c.own_b, "operands:different-ownership")
-        .class_if(c.shape.len() >= 3, "ndim>=3"))
+        .class_if(c.shape.len() >= 3, "ndim>=3")
+        .class_if(c.a.len() > 4096, "elements>4096")
+        .class_if(c.maxv < 0, "maxv:negative"))
 }
 
 fn dev_strategy() -> impl Strategy<Value = DevCase> {
-    (proptest::sample::select(vec![DTy::I32, DTy::I64, DTy::F64, DTy::F32, DTy::Big]), 1usize..=4)
-        .prop_flat_map(|(ty, nd)| {
+    let shapes = (1usize..=4)
+        .prop_flat_map(|nd| {
             let max_axis = match nd {
                 1 => 40,
                 2 => 8,
                 3 => 5,
                 _ => 3,
             };
-            (Just(ty), shape_strategy(nd, max_axis, 100, false), layout_strategy(nd), layout_strategy(nd))
+            shape_strategy(nd, max_axis, 100, false)
+        })
+        .boxed();
+    dev_strategy_shaped(shapes)
+}
+
+/// Thousands of elements in 1..4 dimensions: a long leading axis (lengths around powers of two
+/// and block sizes) times small, mostly non-power-of-two trailing axes.
+fn dev_long_strategy(max_total: usize) -> impl Strategy<Value = DevCase> {
+    let shapes = (crate::gen::long_len(256, 8200), proptest::collection::vec(prop_oneof![Just(1usize), Just(2usize), Just(3usize), Just(4usize), Just(5usize), Just(7usize), Just(12usize), Just(16usize)], 0..3), any::<bool>())
+        .prop_map(move |(outer, inner, outer_last)| {
+            let mut shape = vec![outer];
+            for k in inner {
+                if shape.iter().product::<usize>() * k <= max_total {
+                    shape.push(k);
+                }
+            }
+            if outer_last {
+                shape.reverse();
+            }
+            shape
+        })
+        .boxed();
+    dev_strategy_shaped(shapes)
+}
+
+fn dev_strategy_shaped(shapes: BoxedStrategy<Vec<usize>>) -> impl Strategy<Value = DevCase> {
+    (proptest::sample::select(vec![DTy::I32, DTy::I64, DTy::F64, DTy::F32, DTy::Big]), shapes)
+        .prop_flat_map(|(ty, shape)| {
+            let nd = shape.len();
+            (Just(ty), Just(shape), layout_strategy(nd), layout_strategy(nd))
         })
         .prop_flat_map(|(ty, shape, la, lb)| {
             let n: usize = shape.iter().product();
             let vals = move |n: usize| -> BoxedStrategy<Vec<i128>> {
                 match ty {
-                    // |a-b| <= 2M, n (2M)^2 < 2^31 with n <= 100
+                    // |a-b| <= 2M, n (2M)^2 < 2^31 with n <= 100 (long inputs: smaller magnitudes, same bound)
+                    DTy::I32 if n > 100 => proptest::collection::vec(-80i128..80, n).boxed(),
+                    DTy::I64 if n > 100 => prop_oneof![proptest::collection::vec(-(1i128 << 20)..(1i128 << 20), n), proptest::collection::vec(-3i128..4, n)].boxed(),
                     DTy::I32 => proptest::collection::vec(-1000i128..1000, n).boxed(),
                     DTy::I64 => prop_oneof![proptest::collection::vec(-(1i128 << 26)..(1i128 << 26), n), proptest::collection::vec(-3i128..4, n)].boxed(),
                     DTy::Big => prop_oneof![proptest::collection::vec(-(1i128 << 24)..(1i128 << 24), n), proptest::collection::vec(-3i128..4, n)].boxed(),
@@ -608,10 +655,11 @@ fn dev_strategy() -> impl Strategy<Value = DevCase> {
             };
             let own = || proptest::sample::select(vec![Own3::View, Own3::View, Own3::Owned, Own3::Shared]);
             let maxv = match ty {
-                DTy::I32 => prop_oneof![3 => 1i128..256, 2 => 40_000i128..65_536, 1 => Just(i32::MAX as i128)].boxed(),
-                DTy::I64 | DTy::Big => prop_oneof![3 => 1i128..256, 2 => (1i128 << 31)..(1i128 << 33), 1 => Just(i64::MAX as i128 / 2)].boxed(),
-                DTy::F64 => prop_oneof![3 => 1i128..256, 1 => Just(100_000_000_000_000_000_000i128)].boxed(),
-                DTy::F32 => prop_oneof![3 => 1i128..256, 1 => Just(100_000_000_000_000_000_000i128)].boxed(),
+                // the documented function is 10 log10(maxv^2 / mse): a negative peak (e.g. the minimum of a signed type) is in its domain
+                DTy::I32 => prop_oneof![3 => 1i128..256, 2 => 40_000i128..65_536, 1 => Just(i32::MAX as i128), 1 => -256i128..0, 1 => Just(-32768i128)].boxed(),
+                DTy::I64 | DTy::Big => prop_oneof![3 => 1i128..256, 2 => (1i128 << 31)..(1i128 << 33), 1 => Just(i64::MAX as i128 / 2), 1 => -256i128..0, 1 => Just(-(1i128 << 31))].boxed(),
+                DTy::F64 => prop_oneof![3 => 1i128..256, 1 => Just(100_000_000_000_000_000_000i128), 1 => -256i128..0].boxed(),
+                DTy::F32 => prop_oneof![3 => 1i128..256, 1 => Just(100_000_000_000_000_000_000i128), 1 => -256i128..0].boxed(),
             };
             (Just((ty, shape, la, lb)), vals(n), vals(n), proptest::collection::vec(any::<bool>(), n), own(), own(), maxv, prop_oneof![6 => Just(0i32), 1 => Just(300i32), 1 => Just(-300i32), 1 => Just(100i32), 1 => Just(-100i32)], prop_oneof![3 => Just(0u8), 1 => Just(1u8)])
         })
@@ -714,6 +762,7 @@ pub fn run_c09(ctx: &Ctx) {
     let t = ctx.tier();
     ctx.run_proptest("dev", t.pick(40_000, 2_000_000), dev_strategy(), &check_dev);
     ctx.run_proptest("dev-alias", t.pick(8_000, 200_000), dev_alias_strategy(), &check_dev_alias);
+    ctx.run_proptest("dev-long", t.pick(600, 20_000), dev_long_strategy(t.pick(20_000, 40_000)), &check_dev);
 }
 
 // ---------------------------------------------------------------------------------------
@@ -860,8 +909,28 @@ pub fn check_ent(c: &EntCase) -> CheckResult {
 }
 
 fn ent_strategy() -> impl Strategy<Value = EntCase> {
-    (any::<bool>(), 1usize..=3)
-        .prop_flat_map(|(f32_, nd)| (Just(f32_), shape_strategy(nd, if nd == 1 { 40 } else { 6 }, 64, false), layout_strategy(nd), layout_strategy(nd), any::<bool>()))
+    ent_strategy_shaped((1usize..=3).prop_flat_map(|nd| shape_strategy(nd, if nd == 1 { 40 } else { 6 }, 64, false)).boxed())
+}
+
+/// Thousands of elements (1-D, or a long axis times a small one).
+fn ent_long_strategy(max_n: usize) -> impl Strategy<Value = EntCase> {
+    ent_strategy_shaped(
+        (crate::gen::long_len(300, max_n), 1usize..=4, 0u8..3)
+            .prop_map(|(n, k, place)| match place {
+                0 => vec![n],
+                1 => vec![(n / k).max(2), k],
+                _ => vec![k, (n / k).max(2)],
+            })
+            .boxed(),
+    )
+}
+
+fn ent_strategy_shaped(shapes: BoxedStrategy<Vec<usize>>) -> impl Strategy<Value = EntCase> {
+    (any::<bool>(), shapes)
+        .prop_flat_map(|(f32_, shape)| {
+            let nd = shape.len();
+            (Just(f32_), Just(shape), layout_strategy(nd), layout_strategy(nd), any::<bool>())
+        })
         .prop_flat_map(|(f32_, shape, lp, lq, normalised)| {
             let n: usize = shape.iter().product();
             // non-negative finite values with zeros; occasionally a NaN
@@ -917,16 +986,17 @@ fn ent_strategy() -> impl Strategy<Value = EntCase> {
 pub fn run_c10(ctx: &Ctx) {
     let t = ctx.tier();
     ctx.run_proptest("ent", t.pick(40_000, 1_500_000), ent_strategy(), &check_ent);
+    ctx.run_proptest("ent-long", t.pick(600, 20_000), ent_long_strategy(t.pick(10_000, 20_000)), &check_ent);
 }
 
 pub fn replayers_c08() -> Vec<(&'static str, ReplayFn)> {
-    vec![("cov", |v| replay_with::<CovCase>(v, &check_cov))]
+    vec![("cov", |v| replay_with::<CovCase>(v, &check_cov)), ("cov-long", |v| replay_with::<CovCase>(v, &check_cov))]
 }
 pub fn replayers_c09() -> Vec<(&'static str, ReplayFn)> {
-    vec![("dev", |v| replay_with::<DevCase>(v, &check_dev)), ("dev-alias", |v| replay_with::<DevAliasCase>(v, &check_dev_alias))]
+    vec![("dev", |v| replay_with::<DevCase>(v, &check_dev)), ("dev-alias", |v| replay_with::<DevAliasCase>(v, &check_dev_alias)), ("dev-long", |v| replay_with::<DevCase>(v, &check_dev))]
 }
 pub fn replayers_c10() -> Vec<(&'static str, ReplayFn)> {
-    vec![("ent", |v| replay_with::<EntCase>(v, &check_ent))]
+    vec![("ent", |v| replay_with::<EntCase>(v, &check_ent)), ("ent-long", |v| replay_with::<EntCase>(v, &check_ent))]
 }
 
 #[allow(dead_code)]
